@@ -31,6 +31,10 @@ func TestVerif(t *testing.T) {
 		for k := vfh.N(300, 6000); k > 0; k-- {
 			c12Live(t, r, out)
 		}
+		// "for any system state": every RA, on every path, is built from the state of ITS moment —
+		// also when another build is still in flight (the seven-path histories of C04, with
+		// generations held inside a plugin while the state changes)
+		verifC04Paths(t, r, out)
 	case "C04":
 		verifC04Paths(t, r, out)
 	case "C05":
